@@ -222,6 +222,13 @@ pub fn prepare_receiver(machine: Machine, receiver: Receiver, sound: bool) -> Re
                 e.verif_set_paging(0x20 | 0x0B);
             }
         }
+        Receiver::MidFrame(n) => {
+            e.verif_ram_page_mut(page_no)[0..3].copy_from_slice(&[0xF3, 0x18, 0xFE]);
+            mach::set_regs(&mut e, &RegFile { pc: 0x8000, sp: 0xBF00, ..Default::default() });
+            e.debug_interface().unwrap().mode = crate::host::BpMode::AfterCalls(n as u64 + 1);
+            let _ = e.emulate_frames(crate::host::LONG);
+            e.debug_interface().unwrap().mode = crate::host::BpMode::Never;
+        }
         Receiver::EiPending => {
             e.verif_ram_page_mut(page_no)[0] = 0xFB;
             mach::set_regs(&mut e, &RegFile { pc: 0x8000, sp: 0xBF00, ..Default::default() });
@@ -836,6 +843,7 @@ pub fn receiver_strategy() -> impl Strategy<Value = Receiver> {
         Just(Receiver::MidPrefixChain),
         Just(Receiver::PagingLocked),
         Just(Receiver::EiPending),
+        (0u16..17000).prop_map(Receiver::MidFrame),
     ]
 }
 
